@@ -199,7 +199,7 @@ def variable_to_string(variable_type, var_value):
     else:
         try:
             # everything else just gets a string value
-            return str(var_value)
+            return wire_safe(str(var_value))
         except Exception:
             # it is possible for str to fail if there is a custom __str__ function
             return f'{type(var_value)}@{id(var_value)}'
@@ -374,7 +374,7 @@ def key_to_name(key) -> str:
     :return: the key if it is a string, else its string form
     """
     if isinstance(key, str):
-        return key
+        return wire_safe(key)
     return safe_str(key)
 
 
@@ -386,9 +386,23 @@ def safe_str(value) -> str:
     :return: the string form, or a placeholder naming the type
     """
     try:
-        return str(value)
+        return wire_safe(str(value))
     except Exception:
         return f'{type(value)}@{id(value)}'
+
+
+def wire_safe(text: str) -> str:
+    """
+    Make a string safe to send: text that cannot be encoded as UTF-8 (lone surrogates) is escaped.
+
+    :param text: the text to check
+    :return: the text, with any un-encodable characters replaced by their backslash escape
+    """
+    try:
+        text.encode('utf-8')
+        return text
+    except UnicodeEncodeError:
+        return text.encode('utf-8', 'backslashreplace').decode('utf-8')
 
 
 def process_list_breadth_first(var_collector: Collector, parent_node: ParentNode, value) -> List[Node]:
